@@ -184,6 +184,35 @@ func All() []Prog {
 				hx.Outcome("default")
 			}
 		}},
+		{"atomic-value-two-writers", func() {
+			var v atomic.Value
+			var wg sync.WaitGroup
+			for _, x := range []string{"a", "b"} {
+				x := x
+				wg.Add(1)
+				go func() { defer wg.Done(); v.Store(x) }()
+			}
+			first, _ := v.Load().(string)
+			wg.Wait()
+			hx.Outcome("early=%q final=%q", first, v.Load())
+		}},
+		{"atomic-value-nil-store-panics", func() {
+			var v atomic.Value
+			p := func() (r any) {
+				defer func() { r = recover() }()
+				v.Store(nil)
+				return nil
+			}()
+			hx.Outcome("panicked=%v", p != nil)
+		}},
+		{"cancel-cause", func() {
+			ctx, cancel := context.WithCancelCause(context.Background())
+			child, stop := context.WithCancel(ctx)
+			defer stop()
+			go cancel(fmt.Errorf("why"))
+			<-child.Done()
+			hx.Outcome("err=%v cause=%v", child.Err(), context.Cause(child))
+		}},
 		{"three-way-handoff-order", func() {
 			c := make(chan string)
 			for _, s := range []string{"a", "b"} {
